@@ -68,6 +68,9 @@ func (r *Report) Check(rule, construct, pos string, ok bool, checked, why string
 	if !o.Control {
 		r.counts[rule]++
 	}
+	if os.Getenv("MCVET_ALL") != "" {
+		fmt.Printf("OBL %s %s ok=%v %s\n", rule, o.Construct, ok, pos)
+	}
 	return ok
 }
 
